@@ -135,8 +135,16 @@ def partials(eos, Tn, vw, st, h=1e-5):
     # temperature sensitivities of m at fixed velocities (error of the 2x2 temperature solve)
     m_lnTp = Tp * np.sqrt(gamma2(vp))
     m_lnTm = Tm * np.sqrt(gamma2(st["vm"]))
-    return dict(m_vp=m_vp, Tn_vp=T_vp, m_vw=m_vw, Tn_vw=T_vw, dm_dvw=m_vw - m_vp * T_vw / T_vp, dm_dTn=m_vp / T_vp,
-                m_lnTp=m_lnTp, m_lnTm=m_lnTm)
+    out = dict(m_vp=m_vp, Tn_vp=T_vp, m_vw=m_vw, Tn_vw=T_vw, dm_dvw=m_vw - m_vp * T_vw / T_vp, dm_dTn=m_vp / T_vp,
+               m_lnTp=m_lnTp, m_lnTm=m_lnTm)
+    # the same two combinations for the temperatures themselves (C06: velocity at which T+- reaches a tabulated maximum)
+    for q in ("Tp", "Tm"):
+        q_vp = (a[q] - b[q]) / (2 * h * vp)
+        q_vw = (c[q] - d[q]) / (2 * h * vw)
+        out[f"d{q}_dvw"] = q_vw - q_vp * T_vw / T_vp
+        out[f"d{q}_dTn"] = q_vp / T_vp
+        out[f"{q}_vp"] = q_vp
+    return out
 
 
 # --------------------------------------------------------------------------------------
